@@ -642,6 +642,37 @@ class Sim:
                     return "badarg"
                 self.slots[k] = {0: None, 1: "Z", 5: ("s", b""), 8: ("s", b""), 9: Arr(), 10: Obj()}[ty]
                 return "ok"
+            if t[2] in ("arr", "list"):
+                kind = t[3]
+                vals = []
+                for x in t[4:]:
+                    if kind == "i":
+                        vals.append(("i", int(x)))
+                    elif kind == "s":
+                        vals.append(("s", unhex(x)))
+                    else:
+                        m, e = x.split(":")
+                        vals.append(("d",) + norm_dy(int(m), int(e)))
+                a = Arr(len(vals))
+                a.items = vals
+                a.cap = 3 if len(vals) <= 3 else max(6, len(vals))
+                self.slots[k] = a
+                return "ok"
+            if t[2] == "dic":
+                kind = t[3]
+                o = Obj()
+                for x in t[4:]:
+                    key, val = x.split("=")
+                    o.items[unhex(key)] = ("i", int(val)) if kind == "i" else ("s", unhex(val))
+                o.cap = 3 if len(o.items) <= 3 else max(6, len(o.items))
+                self.slots[k] = o
+                return "ok"
+            if t[2] == "varr":
+                vals = [self.cget(parse_path(x)) for x in t[3:]]
+                a = Arr(len(vals))
+                a.items = vals
+                self.slots[k] = a
+                return "ok"
             if t[2] == "kv":
                 src = self.cget(parse_path(t[4]))
                 o = Obj()
@@ -999,12 +1030,28 @@ class Gen:
             line = "clone %d %s" % (rng.randrange(NS), self.source_path(want_cont=rng.random() < 0.8))
         elif r < 0.97:
             line = "copy %d %s" % (rng.randrange(NS), self.source_path(want_cont=rng.random() < 0.8))
-        elif r < 0.985:
+        elif r < 0.975:
             line = "drop %d" % rng.randrange(NS)
         else:
             k = rng.randrange(NS)
             c = rng.random()
-            if c < 0.3:
+            if c < 0.1:
+                kind = rng.choice("isd")
+                n = rng.choice([0, 1, 2, 3, 4, 5, 6, 7, 13])
+                vals = [rlit(rng, kind).split(None, 1)[1].replace(" ", ":") for _ in range(n)]
+                if kind != "s" and 1 <= n <= 4 and rng.random() < 0.5:
+                    line = "ctor %d list %s %s" % (k, kind, " ".join(vals))
+                else:
+                    line = ("ctor %d arr %s %s" % (k, kind, " ".join(vals))).rstrip()
+            elif c < 0.2:
+                kind = rng.choice("is")
+                n = rng.choice([0, 1, 2, 3, 4, 5, 7, 9])
+                ents = ["%s=%s" % (hexs(rng.choice(KEYS) if rng.random() < 0.7 else rstring(rng)).replace("-", "2d2d"), rlit(rng, kind).split()[1]) for _ in range(n)]
+                line = ("ctor %d dic %s %s" % (k, kind, " ".join(ents))).rstrip()
+            elif c < 0.3:
+                n = rng.randrange(0, 5)
+                line = ("ctor %d varr %s" % (k, " ".join(self.source_path() for _ in range(n)))).rstrip()
+            elif c < 0.4:
                 line = "ctor %d kv %s %s" % (k, hexs(rng.choice(KEYS)), self.source_path())
             elif c < 0.5:
                 line = "ctor %d t %s" % (k, rng.choice(TYPE_NAMES))
@@ -1130,6 +1177,39 @@ def lit_cases(rng, tier):
     return cases
 
 
+def container_ctor_cases(rng, tier):
+    """Var built from an array or an object: Var(Array<T>), Var{x1,..} (initializer_list<T>), Var(Dic<T>), Var::array({..})
+    at every size across the capacity steps 3 / 6, then read back (dump, length, rc, ==, clone) and grown"""
+    cases = []
+    for n in list(range(0, 9)) + [13, 40]:
+        ints = [rng.choice(INTS) for _ in range(n)]
+        strs = [hexs(rstring(rng)) for _ in range(n)]
+        dbls = ["%d:%d" % rdouble(rng) for _ in range(n)]
+        keys = []
+        while len(keys) < n:
+            kx = rstring(rng) or b"k"
+            if kx not in keys:
+                keys.append(kx)
+        c = ["reset", ("ctor 0 arr i " + " ".join(map(str, ints))).rstrip(), ("ctor 1 arr s " + " ".join(strs)).rstrip(),
+             ("ctor 2 arr d " + " ".join(dbls)).rstrip(),
+             ("ctor 3 dic i " + " ".join("%s=%d" % (hexs(k), v) for k, v in zip(keys, ints))).rstrip(),
+             ("ctor 4 dic s " + " ".join("%s=%s" % (hexs(k), v) for k, v in zip(keys, strs))).rstrip()]
+        if 1 <= n <= 4:
+            c += ["ctor 5 list i " + " ".join(map(str, ints)), "eq 5 0", "ctor 6 list d " + " ".join(dbls), "eq 6 2"]
+        if n <= 4:
+            c += [("ctor 7 varr " + " ".join(str(j % 5) for j in range(n))).rstrip(), "len 7", "dump 7", "rc 7"]
+        c += ["dumpall", "len 0", "len 3", "rc 0", "rc 3", "type 0", "type 3", "tostr 1", "tostr 3", "clone 5 0", "eq 5 0", "clone 6 4", "eq 6 4"]
+        # grow them: the capacity chosen by the constructor decides when a shared block would have to move
+        c += ["copy 6 0", "appl 0 i 1", "appl 0 i 2", "appl 0 i 3", "drop 6", "appl 0 i 4", "appl 0 i 5", "appl 0 i 6", "appl 0 i 7",
+              "copy 6 3", "set 3/k7a7a31 i 1", "set 3/k7a7a32 i 2", "set 3/k7a7a33 i 3", "drop 6", "set 3/k7a7a34 i 4", "dumpall"]
+        if n >= 1:
+            c += ["has 3 %s" % hexs(keys[0]), "get 4 %s" % hexs(keys[-1]), "contains 0 0/i0", "setv 0 0/i0", "dump 0"]
+        cases.append(c)
+    # duplicate keys: the later entry wins
+    cases.append(["reset", "ctor 0 dic i 61=1 62=2 61=3 63=4 62=5", "dump 0", "len 0", "rc 0", "ctor 1 dic s 6b=61 6b=62", "dump 1"])
+    return cases
+
+
 def numeric_eq_cases(rng):
     """INT/NUMBER/FLOAT of the same value are equal, STRING/SSTRING of the same bytes are equal, everything else differs"""
     c = ["reset"]
@@ -1240,6 +1320,7 @@ def gen(rng, tier):
     cases += lit_cases(rng, tier)
     cases += numeric_eq_cases(rng)
     cases += float_int_cases(rng, tier)
+    cases += container_ctor_cases(rng, tier)
     cases += growth_cases(rng, tier)
     cases += deep_cases(rng)
     nh = 2500 if tier == "quick" else 40000
